@@ -1,4 +1,5 @@
 (* C06, round trip at block level (FormatParseBlockProofs.v), against Parser.v's parseStatement.
+   (also: if / else if / else)
 
    C06_roundtrip_statement_partial: for every statement st that satisfies [sok fr G st], in every
    parser state s that stands on the tokens the formatter writes for st at any indentation level
@@ -13,15 +14,16 @@
    - one-line statements: typed and inferred declarations, assignment to a VARIABLE, call statements,
      return (with and without value), break; values / arguments / conditions in the expression
      fragment of C06_roundtrip.v ([top_ok], [item_ok]);
-   - while statements whose body is again such a list of statements (any nesting depth), blank lines
-     between statements included (the formatter squeezes a run of blank statements into one line, and
-     the tree compared is squeezed likewise: [body_trees]);
-   - NOT covered: if / else, for, func, on, assignment to a[i] / m.k, comments (Parser.v's trees do
-     not carry them), whole programs (parse_program with the signature pre-pass).
+   - while statements and if / else if ... / else statements whose blocks are again such lists of
+     statements (any nesting depth), blank lines between statements included (the formatter squeezes
+     a run of blank statements into one line, and the tree compared is squeezed likewise:
+     [body_trees]);
+   - NOT covered: for, func, on, assignment to a[i] / m.k, comments (Parser.v's trees do not carry
+     them), whole programs (parse_program with the signature pre-pass).
    The scoping side conditions are no longer stated on parser states: they are the conditions of the
    declarative scope checker of ParserScope.v on the checker's context G (declare / cvisible /
-   use_vars / the scope of a block is closed with every variable used), chained by scope_stmt on the
-   tree; b-pratt's simulation theorem stmt_sim is what transports them along the parser's run.
+   use_vars / the scope of a block is closed with every variable used), chained by scope_stmt /
+   scope_block on the tree; b-pratt's simulation theorem stmt_sim is what transports them along the parser's run.
    Remaining semantic hypotheses: the typing oracle is silent (types are not modelled), a call
    statement's first argument does not start with  = . : :=  ([call_head_ok]: true of every expression
    the formatter can print, not proved here). *)
@@ -58,6 +60,20 @@ Theorem C06_roundtrip_block_partial :
 Proof. exact body_roundtrip. Qed.
 Print Assumptions C06_roundtrip_block_partial.
 
+(* the else-if chain of an if statement (parseIfStatement's loop) *)
+Theorem C06_roundtrip_else_if_partial :
+  forall (B : benv), (forall s t n, b_tyerr B s t n = false) ->
+  forall (fixed : fixes) (F : list (str * finfo)) (fr : frs) (G : ctx) (cbs : list cblock) (Gout : ctx),
+  coks B fixed F fr G cbs Gout ->
+  forall (lvl f fuel : nat) (acc : list (option tree * block)) (s : pst) (endq : list token) (tk : token) (r' : list token),
+  S (szc cbs) <= f -> List.length cbs < fuel ->
+  skip1 endq = tk :: r' -> at_end true (ttype tk) = true ->
+  (ttype tk = T_ELSE -> ttype (peek_of (tk :: r')) <> T_IF) ->
+  ST F s (skip1 (elif_toks fixed lvl cbs ++ endq)) G fr ->
+  exists s', else_if_loop B (parse_statement B f) fuel f acc s = Ok (rev acc ++ map cb_tree cbs) s' /\ ST F s' (tk :: r') Gout fr.
+Proof. exact branches_roundtrip. Qed.
+Print Assumptions C06_roundtrip_else_if_partial.
+
 (* ---------- non-vacuity ---------- *)
 (* the side conditions are satisfiable:   while true / break / end   in a scope without variables *)
 Example C06_block_sok_example :
@@ -75,8 +91,14 @@ Qed.
        while i < 3
            i = i + 1
 
-           while true
+           if i == 1
                break
+           else if i == 2
+               i = 0
+           else
+               while true
+                   break
+               end
            end
        end
    parse back to the statement's tree *)
@@ -93,7 +115,9 @@ Example C06_block_example :
   let w := FmtAst.SWhile (FBin OpLt false i (num "3"%string)) []
              [FmtAst.SAssign i (FBin OpPlus false i (num "1"%string)) [];
               FmtAst.SEmpty []; FmtAst.SEmpty [];
-              FmtAst.SWhile (FBool true) [] [FmtAst.SBreak []] []] [] in
+              FmtAst.SIf (CBlock (FBin OpEq false i (num "1"%string)) [] [FmtAst.SBreak []])
+                         [CBlock (FBin OpEq false i (num "2"%string)) [] [FmtAst.SAssign i (num "0"%string) []]]
+                         (Some ([], [FmtAst.SWhile (FBool true) [] [FmtAst.SBreak []] []])) []] [] in
   exists s', parse_statement C06_block_B 20 (C06_block_state (toks_of_pieces (fmt_stmt current_fixes 0 w) ++ [mk T_NL]))
              = Ok (Some (stmt_tree w)) s' /\ rest (cs s') = [] /\ errs (cs s') = [].
 Proof. vm_compute. eexists; repeat split; reflexivity. Qed.
